@@ -34,10 +34,11 @@ def mkname(rng):
     return ("x" + s) if s in (".", "..") else s
 
 
-def make_tree(rng, root, bs, xattrs_ok, budget_bytes):
+def make_tree(rng, root, bs, xattrs_ok, budget_bytes, far=False):
     os.makedirs(root)
     dirs = [root]
     files = []
+    nodes = []
     used = 0
     n = rng.range(4, 40)
     for _ in range(n):
@@ -63,6 +64,10 @@ def make_tree(rng, root, bs, xattrs_ok, budget_bytes):
             elif k == "sparse":
                 with open(p, "wb") as f:
                     pos = 0
+                    if far and rng.chance(0.5):
+                        # data on both sides of 4 GiB (offsets that do not fit 32 bits)
+                        far = False
+                        pos = (1 << 32) - rng.choice([0, bs, 3 * bs, 100 * bs, (1 << 32) - 5 * bs]) if rng.chance(0.7) else (1 << 33) + 7 * bs
                     for _s in range(rng.range(1, 6)):
                         pos += rng.choice([bs, 4 * bs, 16 * bs, 3 * bs + 17, 65536, 100])
                         f.seek(pos)
@@ -78,13 +83,17 @@ def make_tree(rng, root, bs, xattrs_ok, budget_bytes):
                 t = "".join(NAME_CHARS[rng.below(len(NAME_CHARS))] for _ in range(rng.weighted([(rng.range(1, 59), 4), (rng.range(60, 250), 3), (rng.range(250, 1000), 1)])))
                 os.symlink(t, p)
             elif k == "hardlink":
-                os.link(rng.choice(files), p)
+                # (a link group can be of any non-directory type)
+                os.link(rng.choice(files + nodes + nodes) if nodes else rng.choice(files), p, follow_symlinks=False)
             elif k == "fifo":
                 os.mkfifo(p)
+                nodes.append(p)
             elif k == "sock":
                 os.mknod(p, stat.S_IFSOCK | 0o644)
+                nodes.append(p)
             else:
                 os.mknod(p, (stat.S_IFCHR if k == "chr" else stat.S_IFBLK) | 0o600, os.makedev(rng.below(256), rng.below(256)))
+                nodes.append(p)
         except OSError:
             continue
     # attributes
@@ -120,7 +129,27 @@ def set_times(rng_seed, root):
     os.utime(root, (1300000000, 1300000000))
 
 
-def walk_source(root):
+BIG = 1 << 28
+
+
+def image_nz_digest(fs, inode):
+    """the same digest from the image: mapped blocks in logical order, all-zero ones left out"""
+    h = hashlib.sha256()
+    bs = fs.block_size
+    ext = [(l, p, n) for l, p, n, u in fs.extents(inode)[0] if not u]
+    for l, p, n in sorted(ext):
+        for k in range(n):
+            blk = fs.read_block(p + k)
+            if (l + k) * bs >= inode.size:
+                break
+            if (l + k + 1) * bs > inode.size:
+                blk = blk[:inode.size - (l + k) * bs].ljust(bs, b"\0")
+            if blk.strip(b"\0"):
+                h.update(b"%d:" % (l + k) + blk)
+    return "nz:" + h.hexdigest()
+
+
+def walk_source(root, bs=1024):
     """{relative path: record} by lstat"""
     out = {}
     for dp, dn, fn in os.walk(root):
@@ -133,12 +162,30 @@ def walk_source(root):
             if stat.S_ISREG(st.st_mode):
                 h = hashlib.sha256()
                 with open(p, "rb") as f:
-                    while True:
-                        b = f.read(1 << 20)
-                        if not b:
-                            break
-                        h.update(b)
-                    rec["sha256"] = h.hexdigest()
+                    if st.st_size > BIG:
+                        # too large to stream: (block number, bytes) of every block that is not all zero
+                        pos = 0
+                        while pos < st.st_size:
+                            try:
+                                ds = os.lseek(f.fileno(), pos, os.SEEK_DATA)
+                            except OSError:
+                                break
+                            de = os.lseek(f.fileno(), ds, os.SEEK_HOLE)
+                            b0 = ds // bs
+                            f.seek(b0 * bs)
+                            for bn in range(b0, (min(de, st.st_size) + bs - 1) // bs):
+                                blk = f.read(bs).ljust(bs, b"\0")
+                                if blk.strip(b"\0"):
+                                    h.update(b"%d:" % bn + blk)
+                            pos = de
+                        rec["sha256"] = "nz:" + h.hexdigest()
+                    else:
+                        while True:
+                            b = f.read(1 << 20)
+                            if not b:
+                                break
+                            h.update(b)
+                        rec["sha256"] = h.hexdigest()
                     holes = []
                     pos = 0
                     try:
@@ -208,9 +255,10 @@ class C18(Check):
             os.setxattr(probe, "user.t", b"1")
         except OSError:
             xattrs_ok = False
-        nfiles = make_tree(rng, src, bs, xattrs_ok, int(cfg["size_kib"] * 1024 * 0.4))
+        nfiles = make_tree(rng, src, bs, xattrs_ok, int(cfg["size_kib"] * 1024 * 0.4),
+                           far=("extent" in cfg["features"] and "huge_file" in cfg["features"] and "large_file" in cfg["features"] and rng.chance(0.3)))
         set_times(spec["tree_seed"] ^ 0x7e, src)
-        want = walk_source(src)
+        want = walk_source(src, bs)
         types = sorted(set(r["type"] for r in want.values()))
         feats = ",".join(cfg["features"])
         where = "bs %d, inode size %d, features %s, source reads %s; %d objects" % (bs, cfg["inode_size"], feats, spec["srcmode"], len(want))
@@ -301,6 +349,13 @@ class C18(Check):
                 o.violate("populate|object_unreadable", "%s: %s: %s" % (p[-80:], g["error"], where), skey="populate")
                 return
             if w["type"] == stat.S_IFREG:
+                if str(w["sha256"]).startswith("nz:") and g.get("size") == w["size"]:
+                    try:
+                        g = dict(g)
+                        g["sha256"] = image_nz_digest(fs, fs.read_inode(g["ino"]))
+                        o.stats["probe.file_beyond_4g"] += 1
+                    except Exception as ex:
+                        g["sha256"] = "unreadable: %r" % ex
                 if g.get("size") != w["size"] or g.get("sha256") != w["sha256"]:
                     o.violate("populate|content|%s" % ("size" if g.get("size") != w["size"] else "bytes"), "%s: %s bytes (sha %s...) in the image, %d bytes "
                               "(sha %s...) in the source: %s" % (p[-80:], g.get("size"), str(g.get("sha256"))[:10], w["size"], w["sha256"][:10], where),
